@@ -428,9 +428,16 @@ func Gen(t *rapid.T, o Options) (Spec, []string) {
 	opt := []Ext{{Kind: "ems"}, {Kind: "reneg"}, {Kind: "ticket"}, {Kind: "status"}, {Kind: "sct"},
 		{Kind: "compresscert", U16: []uint16{2}}, {Kind: "recordsizelimit", N: 16385}, {Kind: "delegatedcreds", U16: []uint16{0x0403, 0x0503}},
 		{Kind: "sigalgscert", U16: []uint16{0x0403, 0x0804, 0x0401}}, {Kind: "alps", Strs: []string{"h2"}},
-		{Kind: "generic", Type: 0x0015 + 0x1000, Bytes: []byte{1, 2, 3}}}
+		{Kind: "generic", Type: 0x0015 + 0x1000, Bytes: []byte{1, 2, 3}},
+		// types a ClientHello parser with per-type handling (utls) knows but crypto/tls ignores: old and new
+		// channel_id, next_protocol_negotiation, token_binding, status_request_v2
+		{Kind: "generic", Type: 30031}, {Kind: "generic", Type: 30032}, {Kind: "generic", Type: 13172},
+		{Kind: "generic", Type: 24, Bytes: []byte{1, 0, 2, 1, 2}}, {Kind: "generic", Type: 17, Bytes: []byte{0, 7, 2, 0, 4, 0, 0, 0, 0}}}
 	for _, e := range opt {
-		if rapid.IntRange(0, 2).Draw(t, "opt."+e.Kind) == 0 {
+		if rapid.IntRange(0, 2).Draw(t, fmt.Sprintf("opt.%s.%d", e.Kind, e.Type)) == 0 {
+			if e.Kind == "generic" {
+				cl = append(cl, fmt.Sprintf("exts:type-%d", e.Type))
+			}
 			if e.Kind == "ticket" && rapid.Bool().Draw(t, "ticketdata") && !o.Handshake {
 				e.Bytes = rapid.SliceOfN(rapid.Byte(), 1, 40).Draw(t, "ticket")
 			}
@@ -457,7 +464,7 @@ func Gen(t *rapid.T, o Options) (Spec, []string) {
 	}
 	// padding
 	if rapid.IntRange(0, 3).Draw(t, "pad") == 0 {
-		exts = append(exts, Ext{Kind: "padding", N: rapid.SampledFrom([]int{0, 1, 7, 100, 300}).Draw(t, "padn")})
+		exts = append(exts, Ext{Kind: "padding", N: rapid.SampledFrom([]int{0, 1, 7, 100, 300, 0, 1, 7, 100, 300, 4000, 9000}).Draw(t, "padn")})
 		cl = append(cl, "exts:padding")
 	}
 
